@@ -67,6 +67,9 @@ use wkt::TryFromWkt;
 
 type Pt = (f32, f32);
 
+/// state slots the cost model of `search_instance()` / the end-to-end app reads when serialising a cost
+const COST_SLOTS: usize = 1;
+
 const FORMATS: [(&str, TraversalOutputFormat); 5] = [
     ("edge_id", TraversalOutputFormat::EdgeId),
     ("json", TraversalOutputFormat::Json),
@@ -1158,7 +1161,8 @@ fn resp_case(
     real_si: Option<&SearchInstance>,
     via_builders: bool,
 ) {
-    let mut case = format!("resp {} {} {}", if search_ok { 1 } else { 0 }, jsonproto::enc(req), plugins.len());
+    // cost slots of the search instance: both the mock instance and the end-to-end one read slot 0 ("distance")
+    let mut case = format!("resp {} {} {} {}", if search_ok { 1 } else { 0 }, COST_SLOTS, jsonproto::enc(req), plugins.len());
     let mut real: Vec<Arc<dyn OutputPlugin>> = vec![];
     let mut build_failed = None;
     for (k, p) in plugins.iter().enumerate() {
@@ -1325,6 +1329,7 @@ fn resp_case(
     // does any configured geometry format meet a missing row?
     let mut geometry_missing = false;
     let mut empty_route = false;
+    let mut short_state = false;
     for p in plugins {
         if let PluginSpec::Traversal { table, route, tree } = p {
             if let Some(f) = route {
@@ -1333,6 +1338,9 @@ fn resp_case(
                 }
                 if routes.iter().any(|r| r.is_empty()) {
                     empty_route = true;
+                }
+                if routes.iter().any(|r| r.last().map(|e| e.state.len() < COST_SLOTS).unwrap_or(false)) {
+                    short_state = true;
                 }
             }
             if let Some(f) = tree {
@@ -1346,6 +1354,14 @@ fn resp_case(
         ctx.count("response_missing_geometry");
         if !is_err {
             ctx.fail(idx, "response/missing-geometry-not-error", line.clone());
+        }
+        return;
+    }
+    if short_state {
+        // a hand-made state vector shorter than the cost model's slots: `serialize_cost` fails, error response
+        ctx.count("response_short_state");
+        if !is_err {
+            ctx.fail(idx, "response/short-state-not-error", line.clone());
         }
         return;
     }
@@ -1588,6 +1604,1169 @@ fn e2e_case(ctx: &mut Ctx, idx: usize, dir: &str, rng: &mut Rng) {
     }
 }
 
+
+// ---------------------------------------------------------------------------------------------
+// lookup-table files: loaders, row parsers, builders
+
+#[derive(Clone, Debug)]
+enum GRow {
+    /// a row the WKT parser accepts, with the text variant it is written in
+    Well(Vec<Pt>, usize),
+    /// a row the WKT parser rejects (index into MALFORMED)
+    Bad(usize),
+}
+
+const MALFORMED: [&str; 14] = [
+    "",
+    " ",
+    "LINESTRING (1 2, 3 4",
+    "LINESTRING 1 2, 3 4",
+    "LINESTRING (1 2, 3)",
+    "LINESTRING (1 2 3, 4 5 6)",
+    "POINT (1 2)",
+    "LINESTRING (a b, c d)",
+    "LINESTRING (1,2, 3,4)",
+    "MULTILINESTRING ((1 2, 3 4))",
+    "\"LINESTRING (1 2, 3 4)\"",
+    "0,LINESTRING (1 2, 3 4)",
+    "LINESTRING (NaN 2, 3 4)",
+    "SRID=4326;LINESTRING (1 2, 3 4)",
+];
+
+fn grow_text(r: &GRow) -> String {
+    match r {
+        GRow::Bad(k) => MALFORMED[*k].to_string(),
+        GRow::Well(l, variant) => {
+            if l.is_empty() {
+                return "LINESTRING EMPTY".into();
+            }
+            let pts = |sep: &str, z: bool| l.iter().map(|(x, y)| if z { format!("{} {} 7", x, y) } else { format!("{} {}", x, y) }).collect::<Vec<_>>().join(sep);
+            match variant {
+                1 => format!("LINESTRING({})", pts(",", false)),
+                2 => format!("linestring ({})", pts(", ", false)),
+                3 => format!("  LINESTRING ({})  ", pts(", ", false)),
+                4 => format!("LINESTRING Z ({})", pts(", ", true)),
+                _ => format!("LINESTRING ({})", pts(", ", false)),
+            }
+        }
+    }
+}
+
+fn enc_grows(rows: &[GRow]) -> String {
+    let mut s = format!("{}", rows.len());
+    for r in rows {
+        match r {
+            GRow::Bad(_) => s.push_str(" m"),
+            GRow::Well(l, _) => {
+                s.push_str(" w ");
+                s.push_str(&join(&num_line(l)));
+            }
+        }
+    }
+    s
+}
+
+#[derive(Clone, Copy, Debug)]
+struct FileShape {
+    readable: bool,
+    /// false: the byte stream does not decode to its end — a gzip member cut off in the middle, or
+    /// (`bad_utf8`) a line that is not UTF-8
+    intact: bool,
+    bad_utf8: bool,
+    gz: bool,
+    crlf: bool,
+    final_nl: bool,
+}
+
+fn gen_file_shape(rng: &mut Rng, n_rows: usize, last_row_empty: bool) -> FileShape {
+    let gz = rng.chance(1, 3);
+    let cut = gz && n_rows >= 1 && rng.chance(1, 8);
+    let bad_utf8 = !cut && rng.chance(1, 10);
+    FileShape {
+        readable: !rng.chance(1, 15),
+        intact: !(cut || bad_utf8),
+        bad_utf8,
+        gz,
+        crlf: rng.chance(1, 5),
+        // an empty last row without a final line break would not be a row at all
+        final_nl: last_row_empty || !rng.chance(1, 4),
+    }
+}
+
+fn enc_shape(f: &FileShape) -> String {
+    format!("{} {} {} {} {}", f.readable as u8, f.intact as u8, f.gz as u8, f.crlf as u8, f.final_nl as u8)
+}
+
+/// writes the rows as the shape says; returns the path (which does not exist when `!readable`)
+fn write_table_file(dir: &str, name: &str, rows: &[String], f: &FileShape) -> String {
+    let path = format!("{}/{}", dir, name);
+    let _ = std::fs::remove_file(&path);
+    if !f.readable {
+        return path;
+    }
+    let sep = if f.crlf { "\r\n" } else { "\n" };
+    let mut text: Vec<u8> = vec![];
+    for (i, r) in rows.iter().enumerate() {
+        if f.bad_utf8 && i == rows.len() / 2 {
+            // a line that is not UTF-8, in the middle of the file
+            text.extend_from_slice(b"\xff\xfe not utf-8");
+            text.extend_from_slice(sep.as_bytes());
+        }
+        text.extend_from_slice(r.as_bytes());
+        if i + 1 < rows.len() || f.final_nl {
+            text.extend_from_slice(sep.as_bytes());
+        }
+    }
+    if f.bad_utf8 && rows.is_empty() {
+        text.extend_from_slice(b"\xff\xfe not utf-8");
+        text.extend_from_slice(sep.as_bytes());
+    }
+    let bytes = if f.gz {
+        use std::io::Write;
+        let mut enc = flate2::write::GzEncoder::new(Vec::new(), flate2::Compression::default());
+        enc.write_all(&text).expect("gz");
+        let mut b = enc.finish().expect("gz");
+        if !f.intact && !f.bad_utf8 {
+            b.truncate((b.len() / 2).max(10));
+        }
+        b
+    } else {
+        text
+    };
+    std::fs::write(&path, bytes).expect("write table file");
+    path
+}
+
+fn gen_grows(rng: &mut Rng, n: usize, bad_chance: u64) -> Vec<GRow> {
+    let table = gen_table(rng, n, true, false);
+    table
+        .into_iter()
+        .map(|l| if bad_chance > 0 && rng.chance(1, bad_chance) { GRow::Bad(rng.below(MALFORMED.len())) } else { GRow::Well(l, rng.below(6)) })
+        .collect()
+}
+
+fn intended_table(rows: &[GRow], f: &FileShape) -> Option<Vec<Vec<Pt>>> {
+    if !f.readable || !f.intact {
+        return None;
+    }
+    rows.iter().map(|r| match r { GRow::Well(l, _) => Some(l.clone()), GRow::Bad(_) => None }).collect()
+}
+
+fn show_table(t: &[Vec<Pt>]) -> String {
+    let mut v = vec![t.len() as u64];
+    for l in t {
+        v.extend(num_line(l));
+    }
+    join(&v)
+}
+
+fn one_edge(e: usize) -> Et {
+    Et { edge: e, acc: 0.0, trav: 1.0, state: vec![1.0] }
+}
+
+/// the geometry table a built traversal plugin holds, read back through `process` (geo_json, one route that
+/// visits every row once), plus whether the row after the last one is missing
+fn read_back_table(plugin: &dyn OutputPlugin, n: usize) -> (String, String) {
+    let table = if n == 0 {
+        "0".to_string()
+    } else {
+        let route: Vec<Et> = (0..n).map(one_edge).collect();
+        let sr: Result<(SearchAppResult, SearchInstance), CompassAppError> = Ok((app_result(&[route], &[]), search_instance()));
+        let mut out = json!({});
+        match plugin.process(&mut out, &sr) {
+            Err(e) => err_kind(&e),
+            Ok(()) => match out.get("route").and_then(|r| r.get("path")).ok_or("no-path".to_string()).and_then(parse_features) {
+                Ok(fs) => show_table(&fs.into_iter().map(|f| f.2).collect::<Vec<_>>()),
+                Err(k) => format!("unparsable {}", k),
+            },
+        }
+    };
+    let sr: Result<(SearchAppResult, SearchInstance), CompassAppError> = Ok((app_result(&[vec![one_edge(n)]], &[]), search_instance()));
+    let mut out = json!({});
+    let beyond = match plugin.process(&mut out, &sr) {
+        Err(_) => "err",
+        Ok(()) => "ok",
+    };
+    (table, beyond.to_string())
+}
+
+/// does `f` return within `secs` seconds?  Run in a forked child (alarm), so that a call that never returns
+/// shows up as an oracle failure instead of hanging the check.
+fn returns_within(secs: u32, f: impl FnOnce()) -> bool {
+    unsafe {
+        let pid = libc::fork();
+        if pid < 0 {
+            f();
+            return true;
+        }
+        if pid == 0 {
+            let devnull = libc::open(b"/dev/null\0".as_ptr() as *const libc::c_char, libc::O_WRONLY);
+            if devnull >= 0 {
+                libc::dup2(devnull, 2);
+            }
+            libc::alarm(secs);
+            let _ = catch_unwind(AssertUnwindSafe(f));
+            libc::_exit(0);
+        }
+        let mut status = 0i32;
+        libc::waitpid(pid, &mut status, 0);
+        libc::WIFEXITED(status) && libc::WEXITSTATUS(status) == 0
+    }
+}
+
+/// a file whose byte stream breaks off (truncated gzip): the loaders count its lines first; guard that call
+fn line_count_returns(path: &str) -> bool {
+    use routee_compass_core::util::fs::fs_utils;
+    let p = path.to_string();
+    returns_within(5, move || {
+        let _ = fs_utils::line_count(&p, fs_utils::is_gzip(&p));
+    })
+}
+
+fn load_case(ctx: &mut Ctx, idx: usize, dir: &str, rows: &[GRow], shape: &FileShape) {
+    let texts: Vec<String> = rows.iter().map(grow_text).collect();
+    let path = write_table_file(dir, &format!("load_{}.txt", idx), &texts, shape);
+    if shape.readable && !shape.intact && !line_count_returns(&path) {
+        let _ = std::fs::remove_file(&path);
+        ctx.emit(idx, format!("load {} {}", enc_shape(shape), enc_grows(rows)), "diverges".into());
+        ctx.count("load_diverges");
+        ctx.fail(idx, "geometry_file/truncated-gzip-hangs", format!("fs_utils::line_count did not return within 5 s on a gzip file of {} rows cut off in the middle (reached from TraversalPlugin::from_file and read_linestring_text_file)", rows.len()));
+        return;
+    }
+    let r = catch_unwind(AssertUnwindSafe(|| {
+        let read = match geo_io_utils::read_linestring_text_file(&path) {
+            Ok(t) => format!("ok {}", show_table(&t.iter().map(line_of_geo32).collect::<Vec<_>>())),
+            Err(_) => "err io".to_string(),
+        };
+        let plugin = match TraversalPlugin::from_file(&path, Some(TraversalOutputFormat::GeoJson), None) {
+            Err(e) => err_kind(&e),
+            Ok(p) => {
+                let (t, beyond) = read_back_table(&p, rows.len());
+                format!("ok {} beyond {}", t, beyond)
+            }
+        };
+        format!("read {} | plugin {}", read, plugin)
+    }));
+    let _ = std::fs::remove_file(&path);
+    let line = r.unwrap_or_else(|_| "panic".into());
+    let case = format!("load {} {}", enc_shape(shape), enc_grows(rows));
+    ctx.emit(idx, case.clone(), line.clone());
+    ctx.nontrivial(&case);
+    ctx.count("load_geometry_file");
+    if shape.gz {
+        ctx.count("load_gzip");
+    }
+    // oracle: all rows in order, or a load error — never a table with a row skipped
+    match intended_table(rows, shape) {
+        None => {
+            ctx.count("load_rejected");
+            if line != "read err io | plugin err build" {
+                ctx.fail(idx, "geometry_file/bad-file-loaded", format!("rows {:?} shape {:?}: {}", texts, shape, line.chars().take(300).collect::<String>()));
+            }
+        }
+        Some(t) => {
+            let want = format!("read ok {} | plugin ok {} beyond err", show_table(&t), show_table(&t));
+            if line != want {
+                ctx.fail(idx, "geometry_file/rows-differ", format!("{} rows: {}", t.len(), line.chars().take(300).collect::<String>()));
+            }
+        }
+    }
+}
+
+/// an `f64` whose eight bytes are ASCII and which is exactly an `f32`: the WKB text can live in a `String`
+fn ascii_f64(rng: &mut Rng) -> f64 {
+    let b = [0u8, 0, 0, [0x00u8, 0x20, 0x40, 0x60][rng.below(4)], rng.below(0x80) as u8, rng.below(0x80) as u8, rng.below(0x80) as u8, 0x40];
+    f64::from_le_bytes(b)
+}
+
+fn wkb_row_case(ctx: &mut Ctx, idx: usize, rng: &mut Rng) {
+    let kind = rng.below(6);
+    let (case, bytes): (String, Vec<u8>) = match kind {
+        0 => ("wkbrow other".into(), {
+            let mut b = vec![1u8, 1, 0, 0, 0];
+            b.extend(ascii_f64(rng).to_le_bytes());
+            b.extend(ascii_f64(rng).to_le_bytes());
+            b
+        }),
+        1 => match rng.below(6) {
+            // the bytes end early
+            0 => ("wkbrow trunc".into(), vec![]),
+            1 => ("wkbrow trunc".into(), vec![1u8, 2, 0, 0, 0, 5, 0, 0, 0, 0, 0]),
+            // big-endian marker
+            2 => ("wkbrow be".into(), vec![0u8, 0, 0, 0, 2, 0, 0, 0, 0]),
+            // what a hex-encoded WKB text row looks like to `row.as_bytes()`: first byte '0'
+            3 => ("wkbrow order".into(), b"0102000000020000000000000000000040000000000000084000000000000010400000000000001440".to_vec()),
+            4 => ("wkbrow order".into(), b"LINESTRING (1 2, 3 4)".to_vec()),
+            _ => ("wkbrow type".into(), vec![1u8, 99, 0, 0, 0]),
+        },
+        _ => {
+            let n = rng.below(7);
+            let pts: Vec<(f64, f64)> = (0..n).map(|_| (ascii_f64(rng), ascii_f64(rng))).collect();
+            let mut b = vec![1u8, 2, 0, 0, 0, n as u8, 0, 0, 0];
+            for (x, y) in &pts {
+                b.extend(x.to_le_bytes());
+                b.extend(y.to_le_bytes());
+            }
+            let l: Vec<Pt> = pts.iter().map(|(x, y)| (*x as f32, *y as f32)).collect();
+            (format!("wkbrow ls {}", join(&num_line(&l))), b)
+        }
+    };
+    let row = String::from_utf8(bytes).expect("ascii wkb");
+    if std::env::var("C20_DEBUG").is_ok() {
+        eprintln!("WKBROW {} bytes {:?}", case, row.as_bytes());
+    }
+    let r = catch_unwind(AssertUnwindSafe(|| geo_io_utils::parse_wkb_linestring(0, row)));
+    let line = match &r {
+        Err(_) => "panic".to_string(),
+        Ok(Err(_)) => "err io".to_string(),
+        Ok(Ok(l)) => format!("ok {}", join(&num_line(&line_of_geo32(l)))),
+    };
+    ctx.emit(idx, case.clone(), line.clone());
+    ctx.nontrivial(&case);
+    ctx.count("parse_wkb_linestring");
+    // oracle: a linestring comes back point for point; nothing else comes back as a linestring
+    // (the panics of the `wkb` crate on a bad first byte / unknown type are modelled outcomes, not C20 failures)
+    let bad = if kind >= 2 { line != format!("ok {}", &case["wkbrow ls ".len()..]) } else { line.starts_with("ok") };
+    if bad {
+        ctx.fail(idx, "parse_wkb_linestring/result", format!("{}: {}", case, line));
+    }
+    if line == "panic" {
+        ctx.count("parse_wkb_linestring_panics");
+    }
+}
+
+fn gen_uuid_rows(rng: &mut Rng, n: usize) -> Vec<String> {
+    (0..n)
+        .map(|i| match rng.below(10) {
+            0 => String::new(),
+            1 => format!("  padded {} ", i),
+            2 => format!("caf\u{e9}-{}", i),
+            3 => format!("a,b;\"q\",{}", i),
+            4 => "same".to_string(),
+            _ => format!("{:08x}-{}", rng.next() as u32, i),
+        })
+        .collect()
+}
+
+fn uuid_load_case(ctx: &mut Ctx, idx: usize, dir: &str, rows: &[String], shape: &FileShape) {
+    let path = write_table_file(dir, &format!("uuidload_{}.txt", idx), rows, shape);
+    let n = rows.len();
+    if shape.readable && !shape.intact && !line_count_returns(&path) {
+        let _ = std::fs::remove_file(&path);
+        let case = format!("uuidload {} {} {}", enc_shape(shape), n, rows.iter().map(|s| jsonproto::hex(s)).collect::<Vec<_>>().join(" ")).trim_end().to_string();
+        ctx.emit(idx, case, "diverges".into());
+        ctx.count("load_diverges");
+        ctx.fail(idx, "uuid_file/truncated-gzip-hangs", format!("fs_utils::line_count did not return within 5 s on a gzip file of {} rows cut off in the middle (reached from UUIDOutputPlugin::from_file)", n));
+        return;
+    }
+    let r = catch_unwind(AssertUnwindSafe(|| match UUIDOutputPlugin::from_file(&path) {
+        Err(e) => err_kind(&e),
+        Ok(p) => {
+            let sr: Result<(SearchAppResult, SearchInstance), CompassAppError> = Ok((app_result(&[], &[]), search_instance()));
+            let mut got = vec![];
+            for i in 0..n {
+                let mut out = json!({"request": {"origin_vertex": i, "destination_vertex": n - 1 - i}});
+                match p.process(&mut out, &sr) {
+                    Ok(()) => got.push(format!("{} {}", opt_hex(out.get("origin_vertex_uuid")), opt_hex(out.get("destination_vertex_uuid")))),
+                    Err(e) => got.push(err_kind(&e)),
+                }
+            }
+            let mut out = json!({"request": {"origin_vertex": 0, "destination_vertex": n}});
+            let beyond = if p.process(&mut out, &sr).is_err() { "err" } else { "ok" };
+            format!("ok {} {} beyond {}", n, got.join(" "), beyond).replace("  ", " ")
+        }
+    }));
+    let _ = std::fs::remove_file(&path);
+    let line = r.unwrap_or_else(|_| "panic".into());
+    let case = format!("uuidload {} {} {}", enc_shape(shape), n, rows.iter().map(|s| jsonproto::hex(s)).collect::<Vec<_>>().join(" ")).trim_end().to_string();
+    ctx.emit(idx, case.clone(), line.clone());
+    ctx.nontrivial(&case);
+    ctx.count("load_uuid_file");
+    let want = if !shape.readable || !shape.intact {
+        "err build".to_string()
+    } else {
+        let got: Vec<String> = (0..n).map(|i| format!("s {} s {}", jsonproto::hex(&rows[i]), jsonproto::hex(&rows[n - 1 - i]))).collect();
+        format!("ok {} {} beyond err", n, got.join(" ")).replace("  ", " ")
+    };
+    if line != want {
+        ctx.fail(idx, "uuid_file/rows-differ", format!("rows {:?} shape {:?}: {}", rows, shape, line.chars().take(300).collect::<String>()));
+    }
+}
+
+fn add_od_case(ctx: &mut Ctx, idx: usize, output: &Value, ou: &str, du: &str) {
+    use routee_compass::plugin::output::default::uuid::output_json_extensions::UUIDJsonExtensions;
+    let mut out = output.clone();
+    let r = catch_unwind(AssertUnwindSafe(|| out.add_od_uuids(ou.to_string(), du.to_string())));
+    let line = match &r {
+        Err(_) => "panic".to_string(),
+        Ok(Err(e)) => err_kind(e),
+        Ok(Ok(())) => format!("ok {}", jsonproto::enc(&out)),
+    };
+    let case = format!("addod {} {} {}", jsonproto::hex(ou), jsonproto::hex(du), jsonproto::enc(output));
+    ctx.emit(idx, case.clone(), line.clone());
+    ctx.nontrivial(&case);
+    ctx.count("add_od_uuids");
+    let req_is_obj = output.get("request").map(|r| r.is_object()).unwrap_or(false);
+    match &r {
+        Ok(Ok(())) => {
+            let rq = out.get("request");
+            if !req_is_obj
+                || rq.and_then(|r| r.get("origin_vertex_uuid")).and_then(|v| v.as_str()) != Some(ou)
+                || rq.and_then(|r| r.get("destination_vertex_uuid")).and_then(|v| v.as_str()) != Some(du)
+            {
+                ctx.fail(idx, "add_od_uuids/result", line);
+            }
+        }
+        Ok(Err(_)) => {
+            if req_is_obj || out != *output {
+                ctx.fail(idx, "add_od_uuids/unexpected-error", line);
+            }
+        }
+        Err(_) => ctx.fail(idx, "add_od_uuids/panic", line),
+    }
+}
+
+fn route_wkt_case(ctx: &mut Ctx, idx: usize, output: &Value) {
+    use routee_compass::plugin::output::default::traversal::json_extensions::TraversalJsonExtensions;
+    let r = catch_unwind(AssertUnwindSafe(|| output.get_route_geometry_wkt()));
+    let line = match &r {
+        Err(_) => "panic".to_string(),
+        Ok(Err(e)) => err_kind(e),
+        Ok(Ok(s)) => format!("ok {}", jsonproto::hex(s)),
+    };
+    ctx.emit(idx, format!("routewkt {}", jsonproto::enc(output)), line.clone());
+    ctx.count("get_route_geometry_wkt");
+    let want = output.get("route").and_then(|v| v.as_str());
+    let ok = match (&r, want) {
+        (Ok(Ok(s)), Some(w)) => s == w,
+        (Ok(Err(_)), None) => true,
+        _ => false,
+    };
+    if !ok {
+        ctx.fail(idx, "get_route_geometry_wkt/result", line);
+    }
+}
+
+fn fields_case(ctx: &mut Ctx, idx: usize) {
+    use routee_compass::plugin::input::InputField;
+    use routee_compass::plugin::output::default::traversal::json_extensions::TraversalJsonField;
+    use routee_compass::plugin::output::default::uuid::output_json_extensions::UUIDJsonField as U;
+    let mut names = vec![];
+    let mut consistent = true;
+    for mk in [|| U::Request, || U::OriginVertexId, || U::DestinationVertexId, || U::OriginVertexUUID, || U::DestinationVertexUUID] {
+        let a = mk().as_str().to_string();
+        let b = mk().to_string();
+        let c = InputField::from(mk()).to_str().to_string();
+        consistent &= a == b && b == c;
+        names.push(a);
+    }
+    for f in [TraversalJsonField::RouteOutput, TraversalJsonField::TreeOutput] {
+        consistent &= f.as_str() == f.to_string();
+        names.push(f.as_str().to_string());
+    }
+    ctx.emit(idx, "fields".into(), names.join(" "));
+    ctx.count("field_names");
+    if !consistent {
+        ctx.fail(idx, "field_names/inconsistent", names.join(" "));
+    }
+}
+
+/// prefix encoding of a JSON value with numbers by lexeme only
+fn enc_lex(v: &Value) -> String {
+    match v {
+        Value::Null => "z".into(),
+        Value::Bool(true) => "t".into(),
+        Value::Bool(false) => "f".into(),
+        Value::Number(n) => format!("n {}", jsonproto::hex(&n.to_string())),
+        Value::String(s) => format!("s {}", jsonproto::hex(s)),
+        Value::Array(a) => {
+            let mut s = format!("a {}", a.len());
+            for x in a {
+                s.push(' ');
+                s.push_str(&enc_lex(x));
+            }
+            s
+        }
+        Value::Object(m) => {
+            let mut s = format!("o {}", m.len());
+            for (k, x) in m {
+                s.push(' ');
+                s.push_str(&jsonproto::hex(k));
+                s.push(' ');
+                s.push_str(&enc_lex(x));
+            }
+            s
+        }
+    }
+}
+
+fn summary_case(ctx: &mut Ctx, idx: usize, search_ok: bool, time: &str, millis: u64, iterations: u64, route_lens: &[usize], tree_sizes: &[usize], output: &Value) {
+    use routee_compass_core::util::duration_extension::DurationExtension;
+    let runtime = Duration::from_millis(millis);
+    let runtime_text = runtime.hhmmss();
+    let routes: Vec<Vec<Et>> = route_lens.iter().map(|n| (0..*n).map(one_edge).collect()).collect();
+    let trees: Vec<Vec<Br>> = tree_sizes.iter().map(|n| (0..*n).map(|k| Br { key: k + 1, terminal: k, et: one_edge(k) }).collect()).collect();
+    let sr: Result<(SearchAppResult, SearchInstance), CompassAppError> = if search_ok {
+        let mut r = app_result(&routes, &trees);
+        r.search_executed_time = time.to_string();
+        r.search_runtime = runtime;
+        r.iterations = iterations;
+        Ok((r, search_instance()))
+    } else {
+        Err(CompassAppError::InternalError("search failed".into()))
+    };
+    let mut out = output.clone();
+    // every other case builds the plugin the way the configuration does
+    let plugin: Arc<dyn OutputPlugin> = if idx % 2 == 0 {
+        Arc::new(SummaryOutputPlugin {})
+    } else {
+        routee_compass::plugin::output::default::summary::builder::SummaryOutputPluginBuilder {}.build(&json!({"type": "summary"})).expect("summary builder")
+    };
+    let r = catch_unwind(AssertUnwindSafe(|| plugin.process(&mut out, &sr)));
+    let mut mib_ok = true;
+    let line = match &r {
+        Err(_) => "panic".to_string(),
+        Ok(Err(e)) => err_kind(e),
+        Ok(Ok(())) => {
+            if search_ok {
+                // memory sizes are not compared: checked to be a positive number, then blanked
+                mib_ok = out.get("search_result_size_mib").and_then(|v| v.as_f64()).map(|x| x > 0.0).unwrap_or(false);
+                if let Some(m) = out.as_object_mut() {
+                    if m.contains_key("search_result_size_mib") {
+                        m.insert("search_result_size_mib".into(), Value::Null);
+                    }
+                }
+            }
+            format!("ok {}", enc_lex(&out))
+        }
+    };
+    let case = format!(
+        "summary {} {} {} {} {} {} {}",
+        search_ok as u8,
+        jsonproto::hex(time),
+        jsonproto::hex(&runtime_text),
+        iterations,
+        join(&std::iter::once(route_lens.len() as u64).chain(route_lens.iter().map(|x| *x as u64)).collect::<Vec<_>>()),
+        join(&std::iter::once(tree_sizes.len() as u64).chain(tree_sizes.iter().map(|x| *x as u64)).collect::<Vec<_>>()),
+        jsonproto::enc(output)
+    );
+    ctx.emit(idx, case.clone(), line.clone());
+    ctx.nontrivial(&case);
+    ctx.count(if !search_ok { "summary_search_failed" } else if line == "panic" { "summary_panic" } else { "summary_ok" });
+    let assignable = output.is_object() || output.is_null();
+    match &r {
+        Ok(Ok(())) => {
+            if !search_ok {
+                if out != *output {
+                    ctx.fail(idx, "summary/failed-search-modified", line);
+                }
+                return;
+            }
+            let re: usize = route_lens.iter().sum();
+            let ts: usize = tree_sizes.iter().sum();
+            if !assignable {
+                ctx.fail(idx, "summary/wrote-into-non-object", line);
+            } else if out.get("route_edges").and_then(|v| v.as_u64()) != Some(re as u64) || out.get("tree_size_count").and_then(|v| v.as_u64()) != Some(ts as u64) {
+                ctx.fail(idx, "summary/route-edges", format!("{} edges {} branches: {}", re, ts, line));
+            } else if out.get("iterations").and_then(|v| v.as_u64()) != Some(iterations) || out.get("search_executed_time").and_then(|v| v.as_str()) != Some(time) || !mib_ok {
+                ctx.fail(idx, "summary/other-fields", line);
+            } else if let Some(m) = output.as_object() {
+                let ours = ["search_executed_time", "search_runtime", "route_edges", "tree_size_count", "search_result_size_mib", "iterations"];
+                if m.iter().any(|(k, v)| !ours.contains(&k.as_str()) && out.get(k) != Some(v)) {
+                    ctx.fail(idx, "summary/other-keys-changed", line);
+                }
+            }
+        }
+        Ok(Err(_)) => ctx.fail(idx, "summary/unexpected-error", line),
+        Err(_) => {
+            if !search_ok || assignable {
+                ctx.fail(idx, "summary/panic", line);
+            }
+        }
+    }
+}
+
+fn output_of_kind(kind: &str, stale: bool) -> Value {
+    match kind {
+        "null" => Value::Null,
+        "arr" => json!([{"request": {}}]),
+        "str" => json!("output"),
+        _ => {
+            if stale {
+                json!({"request": {"origin_vertex": 0}, "route": "stale", "keep": [1, 2], "tree": "stale"})
+            } else {
+                json!({"request": {"origin_vertex": 0}, "keep": [1, 2]})
+            }
+        }
+    }
+}
+
+fn show_resp_keys(v: &Value, route_fmt: Option<usize>, tree_fmt: Option<usize>, n_trees: usize) -> String {
+    let route = match route_fmt {
+        None => "n".to_string(),
+        Some(f) => match v.get("route") {
+            None => "missing".to_string(),
+            Some(x) => match shape_route(FORMATS[f].0, x) {
+                Ok(s) => format!("s {}", s),
+                Err(k) => format!("unparsable {}", k),
+            },
+        },
+    };
+    let tree = match tree_fmt {
+        None => "n".to_string(),
+        Some(f) => match v.get("tree") {
+            None => "missing".to_string(),
+            Some(x) => match shape_tree(FORMATS[f].0, n_trees, x) {
+                Ok(s) => format!("s {}", s),
+                Err(k) => format!("unparsable {}", k),
+            },
+        },
+    };
+    format!("ok route {} tree {}", route, tree)
+}
+
+/// `TraversalPlugin::process` called directly
+#[allow(clippy::too_many_arguments)]
+fn tproc_case(ctx: &mut Ctx, idx: usize, dir: &str, search_ok: bool, kind: &str, stale: bool, table: &[Vec<Pt>], route_fmt: Option<usize>, tree_fmt: Option<usize>, routes: &[Vec<Et>], trees: &[Vec<Br>]) {
+    let path = format!("{}/tproc_{}.txt", dir, idx);
+    write_rows(&path, &table.iter().map(|l| wkt_row(l)).collect::<Vec<_>>());
+    let plugin = TraversalPlugin::from_file(&path, route_fmt.map(|i| FORMATS[i].1), tree_fmt.map(|i| FORMATS[i].1));
+    let _ = std::fs::remove_file(&path);
+    let mut case = format!("tproc {} {} {} {} {} {}", search_ok as u8, kind, COST_SLOTS, enc_table(table), enc_optfmt(&route_fmt), enc_optfmt(&tree_fmt));
+    case.push_str(&format!(" {}", routes.len()));
+    for r in routes {
+        case.push(' ');
+        case.push_str(&enc_route(r));
+    }
+    case.push_str(&format!(" {}", trees.len()));
+    for t in trees {
+        case.push(' ');
+        case.push_str(&enc_tree(t));
+    }
+    let case = case.replace("  ", " ");
+    let Ok(plugin) = plugin else {
+        ctx.emit(idx, case, "build-failed".into());
+        ctx.fail(idx, "plugin/table-not-loaded", "traversal plugin".into());
+        return;
+    };
+    let input = output_of_kind(kind, stale);
+    let mut out = input.clone();
+    let sr: Result<(SearchAppResult, SearchInstance), CompassAppError> =
+        if search_ok { Ok((app_result(routes, trees), search_instance())) } else { Err(CompassAppError::InternalError("search failed".into())) };
+    let r = catch_unwind(AssertUnwindSafe(|| plugin.process(&mut out, &sr)));
+    let line = match &r {
+        Err(_) => "panic".to_string(),
+        Ok(Err(e)) => err_kind(e),
+        Ok(Ok(())) => {
+            if !search_ok {
+                if out == input { "unchanged".to_string() } else { "modified".to_string() }
+            } else {
+                show_resp_keys(&out, route_fmt, tree_fmt, trees.len())
+            }
+        }
+    };
+    ctx.emit(idx, case.clone(), line.clone());
+    ctx.nontrivial(&case);
+    ctx.count(&format!("process_{}_{}_{}", if route_fmt.is_some() { "route" } else { "noroute" }, if tree_fmt.is_some() { "tree" } else { "notree" }, if search_ok { "ok" } else { "failed" }));
+    // oracle
+    if !search_ok {
+        if line != "unchanged" {
+            ctx.fail(idx, "traversal_plugin/failed-search-modified", line);
+        }
+        return;
+    }
+    let must_fail = route_fmt.map(|f| routes.iter().any(|r| r.is_empty() || r.last().map(|e| e.state.len() < COST_SLOTS).unwrap_or(false) || (uses_geometry(FORMATS[f].0) && r.iter().any(|e| e.edge >= table.len())))).unwrap_or(false)
+        || tree_fmt.map(|f| uses_geometry(FORMATS[f].0) && trees.iter().any(|t| t.iter().any(|b| b.et.edge >= table.len()))).unwrap_or(false);
+    let writes = route_fmt.is_some() || tree_fmt.is_some();
+    let assignable = kind == "obj" || kind == "null";
+    match &r {
+        Ok(Ok(())) => {
+            if must_fail {
+                ctx.fail(idx, "traversal_plugin/missing-geometry-not-error", line.chars().take(300).collect());
+            } else if writes && !assignable {
+                ctx.fail(idx, "traversal_plugin/wrote-into-non-object", line.chars().take(300).collect());
+            } else {
+                if route_fmt.is_some() != out.get("route").map(|v| v != "stale").unwrap_or(false) && !(route_fmt.is_none() && out.get("route").is_none()) {
+                    ctx.fail(idx, "traversal_plugin/route-key", format!("route configured {:?}, key {:?}", route_fmt.is_some(), out.get("route").is_some()));
+                }
+                if tree_fmt.is_some() != out.get("tree").map(|v| v != "stale").unwrap_or(false) && !(tree_fmt.is_none() && out.get("tree").is_none()) {
+                    ctx.fail(idx, "traversal_plugin/tree-key", format!("tree configured {:?}, key {:?}", tree_fmt.is_some(), out.get("tree").is_some()));
+                }
+                if kind == "obj" && (out.get("keep") != input.get("keep") || out.get("request") != input.get("request")) {
+                    ctx.fail(idx, "traversal_plugin/other-keys-changed", "keep/request".into());
+                }
+                if let (Some(f), Some(x)) = (route_fmt, out.get("route")) {
+                    let rendered: Vec<&Value> = match x {
+                        Value::Null => vec![],
+                        Value::Array(a) => a.iter().collect(),
+                        other => vec![other],
+                    };
+                    if rendered.len() != routes.len() {
+                        ctx.fail(idx, "traversal_plugin/route-count", format!("{} rendered for {}", rendered.len(), routes.len()));
+                    } else {
+                        for (rt, rv) in routes.iter().zip(rendered) {
+                            let parsed = rv.get("path").ok_or("route-without-path".to_string()).and_then(|p| parse_route_out(FORMATS[f].0, p));
+                            check_route(ctx, idx, "traversal_plugin", FORMATS[f].0, table, rt, &parsed);
+                        }
+                    }
+                }
+                if let (Some(f), Some(x)) = (tree_fmt, out.get("tree")) {
+                    let rendered: Vec<&Value> = match trees.len() {
+                        0 => vec![],
+                        1 => vec![x],
+                        _ => x.as_array().map(|a| a.iter().collect()).unwrap_or_default(),
+                    };
+                    if rendered.len() != trees.len() {
+                        ctx.fail(idx, "traversal_plugin/tree-count", format!("{} rendered for {}", rendered.len(), trees.len()));
+                    } else {
+                        for (t, tv) in trees.iter().zip(rendered) {
+                            let parsed = parse_tree_out(FORMATS[f].0, tv);
+                            check_tree(ctx, idx, "traversal_plugin", FORMATS[f].0, table, t, &parsed);
+                        }
+                    }
+                }
+            }
+        }
+        Ok(Err(_)) => {
+            if !must_fail {
+                ctx.fail(idx, "traversal_plugin/unexpected-error", line);
+            }
+        }
+        Err(_) => {
+            if assignable || !writes {
+                ctx.fail(idx, "traversal_plugin/panic", line);
+            }
+        }
+    }
+}
+
+#[derive(Clone, Debug)]
+enum FileParam<T> {
+    Absent,
+    NotString,
+    NoSuchFile,
+    File(Vec<T>, FileShape),
+}
+
+fn enc_param(p: &Option<Value>) -> String {
+    match p {
+        None => "absent".into(),
+        Some(v) => format!("json {}", jsonproto::enc(v)),
+    }
+}
+
+fn gen_fmt_param(rng: &mut Rng) -> Option<Value> {
+    match rng.below(24) {
+        0..=4 => None,
+        5 => Some(Value::Null),
+        6 => Some(json!(3)),
+        7 => Some(json!(["wkt"])),
+        8 => Some(json!({"type": "wkt"})),
+        9 => Some(json!(["WKT", "GeoJson", "geojson", "edge-id", "shapefile", "", "Json ", "edgeid"][rng.below(8)])),
+        _ => Some(json!(FORMATS[rng.below(5)].0)),
+    }
+}
+
+fn config_err_kind(e: &routee_compass::app::compass::config::compass_configuration_error::CompassConfigurationError) -> &'static str {
+    use routee_compass::app::compass::config::compass_configuration_error::CompassConfigurationError as E;
+    match e {
+        E::ExpectedFieldForComponent(_, _) => "err expected-field",
+        E::ExpectedFieldWithType(_, _) => "err field-type",
+        E::FileNotFoundForComponent(_, _, _) => "err file-not-found",
+        E::SerdeDeserializationError(_) => "err serde",
+        E::PluginError(_) => "err plugin",
+        _ => "err other",
+    }
+}
+
+fn fmt_of_param(p: &Option<Value>) -> Result<Option<usize>, ()> {
+    match p {
+        None => Ok(None),
+        Some(Value::String(s)) => FORMATS.iter().position(|(n, _)| n == s).map(Some).ok_or(()),
+        Some(_) => Err(()),
+    }
+}
+
+fn build_traversal_case(ctx: &mut Ctx, idx: usize, dir: &str, file: &FileParam<GRow>, route: &Option<Value>, tree: &Option<Value>) {
+    let mut params = serde_json::Map::new();
+    params.insert("type".into(), json!("traversal"));
+    let mut path_to_remove = None;
+    let file_enc = match file {
+        FileParam::Absent => "absent".to_string(),
+        FileParam::NotString => {
+            params.insert("geometry_input_file".into(), json!(17));
+            "notstring".to_string()
+        }
+        FileParam::NoSuchFile => {
+            params.insert("geometry_input_file".into(), json!(format!("{}/no_such_file_{}.txt", dir, idx)));
+            "nofile".to_string()
+        }
+        FileParam::File(rows, shape) => {
+            let path = write_table_file(dir, &format!("build_{}.txt", idx), &rows.iter().map(grow_text).collect::<Vec<_>>(), shape);
+            if shape.readable && !shape.intact && !line_count_returns(&path) {
+                let _ = std::fs::remove_file(&path);
+                ctx.emit(idx, format!("build trav file {} {} {} {}", enc_shape(shape), enc_grows(rows), enc_param(route), enc_param(tree)), "diverges".into());
+                ctx.count("load_diverges");
+                ctx.fail(idx, "geometry_file/truncated-gzip-hangs", "TraversalPluginBuilder::build: fs_utils::line_count did not return within 5 s".into());
+                return;
+            }
+            params.insert("geometry_input_file".into(), json!(path.clone()));
+            path_to_remove = Some(path);
+            format!("file {} {}", enc_shape(shape), enc_grows(rows))
+        }
+    };
+    if let Some(v) = route {
+        params.insert("route".into(), v.clone());
+    }
+    if let Some(v) = tree {
+        params.insert("tree".into(), v.clone());
+    }
+    let case = format!("build trav {} {} {}", file_enc, enc_param(route), enc_param(tree));
+    let built = catch_unwind(AssertUnwindSafe(|| TraversalPluginBuilder {}.build(&Value::Object(params))));
+    if let Some(p) = path_to_remove {
+        let _ = std::fs::remove_file(p);
+    }
+    // probe of a successful build: one route over row 0 (when there is one) and a one-branch tree
+    let n_rows = match file {
+        FileParam::File(rows, _) => rows.len(),
+        _ => 0,
+    };
+    let probe_routes: Vec<Vec<Et>> = if n_rows > 0 { vec![vec![one_edge(0)]] } else { vec![] };
+    let probe_trees: Vec<Vec<Br>> = vec![vec![Br { key: 1, terminal: 0, et: one_edge(0) }]];
+    let want_route = fmt_of_param(route);
+    let want_tree = fmt_of_param(tree);
+    let line = match &built {
+        Err(_) => "panic".to_string(),
+        Ok(Err(e)) => config_err_kind(e).to_string(),
+        Ok(Ok(plugin)) => {
+            let sr: Result<(SearchAppResult, SearchInstance), CompassAppError> = Ok((app_result(&probe_routes, &probe_trees), search_instance()));
+            let mut out = json!({});
+            match catch_unwind(AssertUnwindSafe(|| plugin.process(&mut out, &sr))) {
+                Err(_) => "ok probe panic".to_string(),
+                Ok(Err(e)) => format!("ok probe {}", err_kind(&e)),
+                Ok(Ok(())) => format!("ok probe {}", show_resp_keys(&out, want_route.unwrap_or(None), want_tree.unwrap_or(None), 1)),
+            }
+        }
+    };
+    ctx.emit(idx, case.clone(), line.clone());
+    ctx.nontrivial(&case);
+    ctx.count(if line.starts_with("ok") { "build_traversal_ok" } else { "build_traversal_rejected" });
+    // oracle: a plugin is built only from a readable, fully parseable file and known format names
+    let file_ok = match file {
+        FileParam::File(rows, shape) => intended_table(rows, shape).is_some(),
+        _ => false,
+    };
+    let should_build = file_ok && want_route.is_ok() && want_tree.is_ok();
+    if should_build != line.starts_with("ok") {
+        ctx.fail(idx, "traversal_builder/accepts-or-rejects-wrongly", format!("{} -> {}", case.chars().take(200).collect::<String>(), line.chars().take(200).collect::<String>()));
+    }
+}
+
+fn build_uuid_case(ctx: &mut Ctx, idx: usize, dir: &str, file: &FileParam<String>) {
+    let mut params = serde_json::Map::new();
+    params.insert("type".into(), json!("uuid"));
+    let mut path_to_remove = None;
+    let file_enc = match file {
+        FileParam::Absent => "absent".to_string(),
+        FileParam::NotString => {
+            params.insert("uuid_input_file".into(), json!({"path": "x"}));
+            "notstring".to_string()
+        }
+        FileParam::NoSuchFile => {
+            params.insert("uuid_input_file".into(), json!(format!("{}/no_such_file_{}.txt", dir, idx)));
+            "nofile".to_string()
+        }
+        FileParam::File(rows, shape) => {
+            let path = write_table_file(dir, &format!("buildu_{}.txt", idx), rows, shape);
+            if shape.readable && !shape.intact && !line_count_returns(&path) {
+                let _ = std::fs::remove_file(&path);
+                ctx.emit(idx, format!("build uuid file {} {} {}", enc_shape(shape), rows.len(), rows.iter().map(|s| jsonproto::hex(s)).collect::<Vec<_>>().join(" ")).trim_end().to_string(), "diverges".into());
+                ctx.count("load_diverges");
+                ctx.fail(idx, "uuid_file/truncated-gzip-hangs", "UUIDOutputPluginBuilder::build: fs_utils::line_count did not return within 5 s".into());
+                return;
+            }
+            params.insert("uuid_input_file".into(), json!(path.clone()));
+            path_to_remove = Some(path);
+            format!("file {} {} {}", enc_shape(shape), rows.len(), rows.iter().map(|s| jsonproto::hex(s)).collect::<Vec<_>>().join(" ")).trim_end().to_string()
+        }
+    };
+    let case = format!("build uuid {}", file_enc);
+    let built = catch_unwind(AssertUnwindSafe(|| UUIDOutputPluginBuilder {}.build(&Value::Object(params))));
+    if let Some(p) = path_to_remove {
+        let _ = std::fs::remove_file(p);
+    }
+    let n = match file {
+        FileParam::File(rows, _) => rows.len(),
+        _ => 0,
+    };
+    let line = match &built {
+        Err(_) => "panic".to_string(),
+        Ok(Err(e)) => config_err_kind(e).to_string(),
+        Ok(Ok(plugin)) => {
+            // probe: origin = first row, destination = last row
+            let sr: Result<(SearchAppResult, SearchInstance), CompassAppError> = Ok((app_result(&[], &[]), search_instance()));
+            let mut out = json!({"request": {"origin_vertex": 0, "destination_vertex": n.saturating_sub(1)}});
+            match plugin.process(&mut out, &sr) {
+                Err(e) => format!("ok probe {}", err_kind(&e)),
+                Ok(()) => format!("ok probe ok {} {}", opt_hex(out.get("origin_vertex_uuid")), opt_hex(out.get("destination_vertex_uuid"))),
+            }
+        }
+    };
+    ctx.emit(idx, case.clone(), line.clone());
+    ctx.nontrivial(&case);
+    ctx.count(if line.starts_with("ok") { "build_uuid_ok" } else { "build_uuid_rejected" });
+    let should_build = matches!(file, FileParam::File(_, shape) if shape.readable && shape.intact);
+    if should_build != line.starts_with("ok") {
+        ctx.fail(idx, "uuid_builder/accepts-or-rejects-wrongly", format!("{} -> {}", case.chars().take(200).collect::<String>(), line));
+    }
+}
+
+fn new_streams(ctx: &mut Ctx, dir: &str) {
+    // hand-written first: blank line in the middle, wrong geometry type, CSV-prefixed rows, a clean gzip file
+    let clean = FileShape { readable: true, intact: true, bad_utf8: false, gz: false, crlf: false, final_nl: true };
+    let l0: Vec<Pt> = vec![(1.0, 2.0), (3.0, 4.0)];
+    let l1: Vec<Pt> = vec![(5.0, 6.0), (7.0, 8.0), (9.0, 10.0)];
+    for rows in [
+        vec![GRow::Well(l0.clone(), 0), GRow::Bad(0), GRow::Well(l1.clone(), 0)],
+        vec![GRow::Well(l0.clone(), 0), GRow::Bad(6)],
+        vec![GRow::Bad(11), GRow::Bad(11)],
+        vec![GRow::Well(l0.clone(), 0), GRow::Well(l1.clone(), 1), GRow::Well(vec![], 0)],
+        vec![],
+    ] {
+        for shape in [clean, FileShape { gz: true, ..clean }, FileShape { crlf: true, final_nl: false, ..clean }] {
+            if let Some(idx) = ctx.begin() {
+                load_case(ctx, idx, dir, &rows, &shape);
+            }
+        }
+    }
+    // witness of the (fixed) line_count hang: a two-row gzip geometry file and a uuid file cut off in the middle
+    let cut = FileShape { gz: true, intact: false, ..clean };
+    if let Some(idx) = ctx.begin() {
+        load_case(ctx, idx, dir, &[GRow::Well(l0.clone(), 0), GRow::Well(l1.clone(), 0)], &cut);
+    }
+    if let Some(idx) = ctx.begin() {
+        uuid_load_case(ctx, idx, dir, &["a".to_string(), "b".to_string()], &cut);
+    }
+    // a line that is not UTF-8: counted, then rejected by the row reader
+    let garbled = FileShape { intact: false, bad_utf8: true, ..clean };
+    if let Some(idx) = ctx.begin() {
+        load_case(ctx, idx, dir, &[GRow::Well(l0.clone(), 0), GRow::Well(l1.clone(), 0)], &garbled);
+    }
+    if let Some(idx) = ctx.begin() {
+        uuid_load_case(ctx, idx, dir, &["a".to_string(), "b".to_string()], &garbled);
+    }
+    if let Some(idx) = ctx.begin() {
+        build_uuid_case(ctx, idx, dir, &FileParam::File(vec!["a".to_string()], garbled));
+    }
+    if let Some(idx) = ctx.begin() {
+        build_uuid_case(ctx, idx, dir, &FileParam::File(vec!["a".to_string(), "b".to_string()], cut));
+    }
+    if let Some(idx) = ctx.begin() {
+        fields_case(ctx, idx);
+    }
+    for out in [
+        json!({"route": "LINESTRING(1 2,3 4)"}),
+        json!({"request": {}, "route": {"path": "LINESTRING(1 2,3 4)"}}),
+        json!({"request": {}}),
+        json!({"route": null}),
+        json!(["route"]),
+        json!({"route": ""}),
+    ] {
+        if let Some(idx) = ctx.begin() {
+            route_wkt_case(ctx, idx, &out);
+        }
+    }
+    // uuid ids at the boundaries of the table and of the integer types
+    let table3: Vec<String> = vec!["a".into(), "b".into(), "c".into()];
+    let big: Value = serde_json::from_str("18446744073709551615").unwrap();
+    let too_big: Value = serde_json::from_str("18446744073709551616").unwrap();
+    for (o, d) in [
+        (json!(0), json!(2)),
+        (json!(2), json!(0)),
+        (json!(3), json!(0)),
+        (json!(0), json!(3)),
+        (big.clone(), json!(0)),
+        (json!(0), big.clone()),
+        (too_big.clone(), json!(0)),
+        (json!(0), json!(4294967296u64)),
+        (json!(-0.0), json!(1)),
+        (json!(1), json!(2.0)),
+        (json!(-1), json!(1)),
+        (json!("1"), json!(1)),
+        (json!(1), json!(true)),
+    ] {
+        if let Some(idx) = ctx.begin() {
+            uuid_case(ctx, idx, dir, true, &table3, &json!({"request": {"origin_vertex": o, "destination_vertex": d}}));
+        }
+    }
+    if let Some(idx) = ctx.begin() {
+        uuid_case(ctx, idx, dir, true, &[], &json!({"request": {"origin_vertex": 0, "destination_vertex": 0}}));
+    }
+
+    let n_load = ctx.n(150, 4000);
+    for _ in 0..n_load {
+        let Some(idx) = ctx.begin() else { continue };
+        let mut rng = Rng::for_case(ctx.seed, 20, idx as u64);
+        let n = if rng.chance(1, 10) { 0 } else { 1 + rng.below(12) };
+        let bad = if rng.chance(1, 2) { 0 } else { 4 + rng.below(6) as u64 };
+        let rows = gen_grows(&mut rng, n, bad);
+        let last_empty = matches!(rows.last(), Some(GRow::Bad(0)));
+        let shape = gen_file_shape(&mut rng, n, last_empty);
+        load_case(ctx, idx, dir, &rows, &shape);
+    }
+    let n_wkb = ctx.n(60, 1500);
+    for _ in 0..n_wkb {
+        let Some(idx) = ctx.begin() else { continue };
+        let mut rng = Rng::for_case(ctx.seed, 20, idx as u64);
+        wkb_row_case(ctx, idx, &mut rng);
+    }
+    let n_uload = ctx.n(100, 3000);
+    for _ in 0..n_uload {
+        let Some(idx) = ctx.begin() else { continue };
+        let mut rng = Rng::for_case(ctx.seed, 20, idx as u64);
+        let n = rng.below(10);
+        let rows = gen_uuid_rows(&mut rng, n);
+        let last_empty = rows.last().map(|s| s.is_empty()).unwrap_or(false);
+        let shape = gen_file_shape(&mut rng, n, last_empty);
+        uuid_load_case(ctx, idx, dir, &rows, &shape);
+    }
+    let n_addod = ctx.n(80, 2000);
+    for _ in 0..n_addod {
+        let Some(idx) = ctx.begin() else { continue };
+        let mut rng = Rng::for_case(ctx.seed, 20, idx as u64);
+        let mut out = gen_uuid_output(&mut rng, 5);
+        if rng.chance(1, 4) {
+            // the identifiers are already present inside the request: positions are kept
+            if let Some(rq) = out.get_mut("request").and_then(|r| r.as_object_mut()) {
+                rq.insert("destination_vertex_uuid".into(), json!("old"));
+                rq.insert("z".into(), json!(1));
+            }
+        }
+        let ou = format!("o-{}", rng.below(100));
+        let du = if rng.chance(1, 6) { ou.clone() } else { format!("d-{}", rng.below(100)) };
+        add_od_case(ctx, idx, &out, &ou, &du);
+    }
+    let n_sum = ctx.n(120, 3000);
+    for _ in 0..n_sum {
+        let Some(idx) = ctx.begin() else { continue };
+        let mut rng = Rng::for_case(ctx.seed, 20, idx as u64);
+        let search_ok = !rng.chance(1, 6);
+        let output = match rng.below(10) {
+            0 => Value::Null,
+            1 => json!([1, 2]),
+            2 => json!("text"),
+            3 => json!(7),
+            4 => json!(true),
+            5 => json!({"request": {"origin_vertex": 1}, "route_edges": "stale", "iterations": 3, "zz": null}),
+            _ => json!({"request": gen_request(&mut rng, 5), "route": {"path": [1, 2]}}),
+        };
+        let n_routes = rng.below(4);
+        let route_lens: Vec<usize> = (0..n_routes).map(|_| rng.below(30)).collect();
+        let n_trees = rng.below(3);
+        let tree_sizes: Vec<usize> = (0..n_trees).map(|_| rng.below(30)).collect();
+        let iterations = match rng.below(6) {
+            0 => 0,
+            1 => u64::MAX,
+            _ => rng.below(1_000_000) as u64,
+        };
+        let millis = match rng.below(5) {
+            0 => 0,
+            1 => 86_400_000 * (1 + rng.below(3) as u64) + rng.below(100_000) as u64,
+            _ => rng.below(10_000_000) as u64,
+        };
+        let time = format!("2026-09-26T0{}:{:02}:00+00:00", rng.below(10), rng.below(60));
+        summary_case(ctx, idx, search_ok, &time, millis, iterations, &route_lens, &tree_sizes, &output);
+    }
+    // TraversalPlugin::process directly: every format x {route, tree, both, none} x {success, error result}
+    let n_tproc = ctx.n(216, 4320);
+    for k in 0..n_tproc {
+        let Some(idx) = ctx.begin() else { continue };
+        let mut rng = Rng::for_case(ctx.seed, 20, idx as u64);
+        let combo = k % 72;
+        let route_fmt = if combo % 6 == 5 { None } else { Some(combo % 6) };
+        let tree_fmt = if (combo / 6) % 6 == 5 { None } else { Some((combo / 6) % 6) };
+        let search_ok = combo / 36 == 0 || rng.chance(1, 2);
+        let kind = match rng.below(8) {
+            0 => "null",
+            1 => "arr",
+            2 => "str",
+            _ => "obj",
+        };
+        let n_rows = 1 + rng.below(12);
+        let share = rng.chance(1, 2);
+        let table = gen_table(&mut rng, n_rows, false, share);
+        let bound = if rng.chance(1, 5) { n_rows + 1 } else { n_rows };
+        let n_routes = match rng.below(6) {
+            0 => 0,
+            1 => 2,
+            _ => 1,
+        };
+        let routes: Vec<Vec<Et>> = (0..n_routes)
+            .map(|_| {
+                let len = if rng.chance(1, 20) { 0 } else { 1 + rng.below(10) };
+                let mut r = gen_route(&mut rng, len, bound, Some(1));
+                if rng.chance(1, 15) {
+                    if let Some(e) = r.last_mut() {
+                        e.state.clear();
+                    }
+                }
+                r
+            })
+            .collect();
+        let n_trees = match rng.below(6) {
+            0 => 0,
+            1 => 2,
+            _ => 1,
+        };
+        let trees: Vec<Vec<Br>> = (0..n_trees)
+            .map(|_| {
+                let size = rng.below(10);
+                gen_tree(&mut rng, size, bound, Some(1))
+            })
+            .collect();
+        let stale = rng.chance(1, 4);
+        tproc_case(ctx, idx, dir, search_ok, kind, stale, &table, route_fmt, tree_fmt, &routes, &trees);
+    }
+    // the configuration builders
+    let n_build = ctx.n(200, 4000);
+    for _ in 0..n_build {
+        let Some(idx) = ctx.begin() else { continue };
+        let mut rng = Rng::for_case(ctx.seed, 20, idx as u64);
+        if rng.chance(1, 4) {
+            let file = match rng.below(8) {
+                0 => FileParam::Absent,
+                1 => FileParam::NotString,
+                2 => FileParam::NoSuchFile,
+                _ => {
+                    let n = rng.below(8);
+                    let rows = gen_uuid_rows(&mut rng, n);
+                    let last_empty = rows.last().map(|s| s.is_empty()).unwrap_or(false);
+                    let shape = gen_file_shape(&mut rng, n, last_empty);
+                    FileParam::File(rows, shape)
+                }
+            };
+            build_uuid_case(ctx, idx, dir, &file);
+        } else {
+            let file = match rng.below(10) {
+                0 => FileParam::Absent,
+                1 => FileParam::NotString,
+                2 => FileParam::NoSuchFile,
+                _ => {
+                    let n = rng.below(8);
+                    let bad = if rng.chance(3, 4) { 0 } else { 5 };
+                    let rows = gen_grows(&mut rng, n, bad);
+                    let last_empty = matches!(rows.last(), Some(GRow::Bad(0)));
+                    let shape = gen_file_shape(&mut rng, n, last_empty);
+                    FileParam::File(rows, shape)
+                }
+            };
+            let route = gen_fmt_param(&mut rng);
+            let tree = gen_fmt_param(&mut rng);
+            build_traversal_case(ctx, idx, dir, &file, &route, &tree);
+        }
+    }
+}
+
 // ---------------------------------------------------------------------------------------------
 
 fn gen_uuid_table(rng: &mut Rng, n: usize) -> Vec<String> {
@@ -1820,7 +2999,13 @@ pub fn run(ctx: &mut Ctx) -> &'static str {
         let routes: Vec<Vec<Et>> = (0..n_routes)
             .map(|_| {
                 let len = if rng.chance(1, 25) { 0 } else { 1 + rng.below(20) };
-                gen_route(&mut rng, len, bound, Some(1))
+                let mut r = gen_route(&mut rng, len, bound, Some(1));
+                if rng.chance(1, 20) {
+                    if let Some(e) = r.last_mut() {
+                        e.state.clear();
+                    }
+                }
+                r
             })
             .collect();
         let n_trees = match rng.below(8) {
@@ -1865,7 +3050,9 @@ pub fn run(ctx: &mut Ctx) -> &'static str {
         let mut rng = Rng::for_case(ctx.seed, 20, idx as u64);
         e2e_case(ctx, idx, &dir, &mut rng);
     }
+    // ---- loaders, row parsers, builders, direct `process` calls (appended: earlier case indices are stable) ----
+    new_streams(ctx, &dir);
     let _ = std::fs::remove_dir_all(&dir);
     let _ = fbits(0.0);
-    "hand-written corpus (the unit test's route, a missing row in the middle, empty route, repeated edges, small trees, responses with a missing row per format) then random routes of 0..40 edges with repeated ids, random trees of 0..30 branches, random WKT geometry tables of 1..30 rows with 2..6 (sometimes 0/1) distinctive points, ids beyond the table in a third of the cases; each route/tree through all five formats; traversal_ops functions directly; UUID plugin on well- and ill-formed outputs; apply_output_processing with file-built TraversalPlugin/Summary/UUID plugins; non-trivial = route or tree with at least two entries, every ops/uuid/response case; distinct by full case text"
+    "hand-written corpus (the unit test's route, a missing row in the middle, empty route, repeated edges, small trees, responses with a missing row per format) then random routes of 0..40 edges with repeated ids, random trees of 0..30 branches, random WKT geometry tables of 1..30 rows with 2..6 (sometimes 0/1) distinctive points, ids beyond the table in a third of the cases; each route/tree through all five formats; traversal_ops functions directly; UUID plugin on well- and ill-formed outputs; apply_output_processing with file-built TraversalPlugin/Summary/UUID plugins; real searches (Dijkstra, A*, single-via KSP; vertex/edge oriented) through builder-made plugins; lookup-table files (plain/CRLF/gzip, 14 kinds of malformed WKT row, missing file, gzip cut off in the middle, non-UTF-8 line) through read_linestring_text_file, TraversalPlugin::from_file, UUIDOutputPlugin::from_file and the three builders with absent/ill-typed/unknown parameters; parse_wkb_linestring, add_od_uuids, get_route_geometry_wkt, field names; SummaryOutputPlugin::process and TraversalPlugin::process called directly for every format x {route, tree, both, none} x {successful, failed search} x {object, null, non-object output}; uuid ids at the table and integer boundaries; non-trivial = route or tree with at least two entries, every other case; distinct by full case text"
 }
